@@ -403,7 +403,7 @@ class kLeastAbsErrors(pathmodel.AbstractPathModelDAG):
 
     def _remove_empty_paths(self, solution):
         """
-        Removes empty paths from the solution. Empty paths are those with 0 or 1 nodes.
+        Removes empty paths from the solution. Empty paths are those with 0 or 1 nodes (0 nodes for node-weighted input, where a single node is a path).
 
         Parameters
         ----------
@@ -422,7 +422,8 @@ class kLeastAbsErrors(pathmodel.AbstractPathModelDAG):
         non_empty_paths = []
         non_empty_weights = []
         for path, weight in zip(solution["paths"], solution["weights"]):
-            if len(path) > 1:
+            # a node-weighted path may consist of a single node (a node that is both a source and a sink)
+            if len(path) > (0 if self.flow_attr_origin == "node" else 1):
                 non_empty_paths.append(path)
                 non_empty_weights.append(weight)
 
